@@ -125,6 +125,7 @@ def run(idx: Index, rep: Report, tier: str) -> None:
     # the conditional-expression forms: `c = em.GT(d, I.lower) if I.is_left_open() else em.GE(d, I.lower)` and
     # `op = em.GT if I.is_left_open() else em.GE; c = op(d, I.lower)`
     OPS = ("GT", "GE", "LT", "LE")
+    direct_calls: Dict[str, list] = {}
     if seen < 4:
         host = val if host is val else host
         for m in [host] + [m for m in methods if m is not host]:
@@ -149,6 +150,7 @@ def run(idx: Index, rep: Report, tier: str) -> None:
                         stores = [x for x in walk_no_nested(m.node) if isinstance(x, ast.Name) and isinstance(x.ctx, ast.Store) and x.id == st.targets[0].id]
                         if len(uses) == 1 and len(stores) == 1:
                             op, args = (e.attr if isinstance(e, ast.Attribute) else e.id), uses[0].args
+                            direct_calls.setdefault(want_bound, []).append(uses[0])
                             for st2 in walk_no_nested(m.node):
                                 if isinstance(st2, ast.Assign) and isinstance(st2.targets[0], ast.Name) and st2.value is uses[0]:
                                     result_name = st2.targets[0].id
@@ -166,7 +168,10 @@ def run(idx: Index, rep: Report, tier: str) -> None:
         raise AnalysisError(f"{rule2}: found {seen} of the 4 openness branches in {host.name} (anchor vanished)")
     # the two constraints are conjoined and registered as a condition of the action instance
     rep.check(len(first_args) == 1, rule2, "duration constraint: the four comparisons constrain the same value (the instance's duration)", val.loc(), construct=f"compared values: {len(first_args)} distinct name(s)", detail="" if len(first_args) == 1 else "the lower and the upper constraint are stated about different values", function=val.qualname)
-    ands = [c for c in walk_no_nested(host.node) if isinstance(c, ast.Call) and call_name(c) == "And" and len(c.args) == 2 and all(isinstance(a, ast.Name) for a in c.args) and any(a.id in bound_names["lower"] for a in c.args) and any(a.id in bound_names["upper"] for a in c.args)]
+    def _is_bound(a, side):  # the constraint of that side: the local it was bound to, or the comparison written in place
+        return (isinstance(a, ast.Name) and a.id in bound_names[side]) or any(a is c_ for c_ in direct_calls.get(side, []))
+
+    ands = [c for c in walk_no_nested(host.node) if isinstance(c, ast.Call) and call_name(c) == "And" and len(c.args) == 2 and any(_is_bound(a, "lower") for a in c.args) and any(_is_bound(a, "upper") for a in c.args)]
     rep.check(bool(ands), rule2, "duration constraint: lower and upper constraint conjoined", val.loc(ands[0]) if ands else val.loc(), construct=norm(ands[0]) if ands else "", detail="" if ands else "the lower and upper duration constraints are not both enforced", function=val.qualname)
     # condition interval openness is propagated
     ii = idx.func(TT + "._instantiate_interval")
